@@ -33,6 +33,7 @@
 package main
 
 import (
+	"sync/atomic"
 	"fmt"
 	"math/rand"
 	"net"
@@ -558,6 +559,12 @@ func main() {
 		"lines_validated_property_level": events, "histories_leaving_property_level": badH, "random_histories_matching_impl_level": implOK, "hash_only_hits": hits, "hash_only_misses": misses,
 		"hash_only_requests_for_an_evicted_hash": stats["lru:evictions"], "re_registrations_of_an_evicted_hash": stats["lru:readded"]})
 	c.Set("wall_s_by_stage", map[string]any{"lru_phase_tlc": ls.TLCs, "lru_phase_replay": ls.Replay, "tlc_model": tMC, "replay": tE.Sub(tA).Seconds(), "eviction_phase": tT.Sub(tE).Seconds(), "near_twin_phase": tB.Sub(tT).Seconds(), "random_histories": time.Since(tB).Seconds()})
+	nCarry := atomic.LoadInt64(&carryHashes)
+	if nCarry == 0 {
+		vlib.Infra("vacuous: no text+wrong-hash request carried the digest of (previous text ++ own text)")
+	}
+	c.Set("carried_state_wrong_hashes", map[string]any{"requests": nCarry,
+		"what": "text + SHA-256 of (text of the client's previous request ++ this text): what a hasher that kept state from the previous request would compute; must be rejected like any other wrong hash (judged by PropRel and by sha256(value) == key on the real cache)"})
 	c.Set("exhaustive", true)
 	c.Set("rule", "T: like A over the near-twin model (texts q1, its near-twin q1x, q2; upper-case spelling of a digest), plus per twin kind the scenarios of replay.go twinScenarios and the document-cache scenarios; class = (cache kind, request form incl. text+hash-of-its-near-twin, outcome). L: TLC enumerates the complete labelled state graph of the LRU machine Lru.tla (4 keys x 2 values x capacity 1..3); every edge is replayed on the real lru.New[string](N) in tours and once more followed by a characterising suffix; a case class is (capacity, action of Lru.tla); random histories: class (capacity, number of keys). E: like A over the eviction model (LRU only, more texts than capacity) plus one scenario per evicting edge. A: TLC enumerates the complete labelled state graph of the implementation-level machine of Apq for the bounded alphabet (texts x request forms x cache map/LRU cap); every edge is replayed on the real server at least 3 times (POST, GET, mixed+query cache) inside tours from the initial state and compared exactly (differences = impl_level_drift); a case class is (cache kind, request form, specification outcome). B: seeded random histories over a larger alphabet, recorded on the real server. VERDICT: every observed history of A and B is validated by TLC against the property-level relation Apq!PropRel (ApqPropTrace); a case class is (cache kind, request form, observed outcome class). A case is non-trivial by construction: every class is a distinct (form, outcome) pair; evaluations = requests sent.")
 	c.Assume("the real caches are observed only through the public graphql.Cache API (Get / Add) by a recording decorator; what the specification calls the cache at the property level is the OBSERVED BINDING (Add(k,v) and a Get hit (k,v) set k -> v, a Get miss forgets k); a wrong binding that no Get ever shows is not seen (every tour / history ends with a hash-only request for every hash)")
